@@ -389,6 +389,7 @@ def r5_yaml(chk: Check) -> None:
     loader = P.func("core/deserialization.py:get_yaml_loader")
     cm = P.func("core/deserialization.py:get_yaml_loader.construct_mapping")
     key_rule = None
+    allow_missing: list[str] = []
     for n in walk_body(cm.node):
         if isinstance(n, ast.If) and isinstance(n.test, ast.Compare) and (m := pmatch("$k.tag", n.test.left)) is not None:
             t = n.test
@@ -398,7 +399,25 @@ def r5_yaml(chk: Check) -> None:
                 raw_ok = any(isinstance(s, ast.Assign) and unparse(s.value) == f"{kn}.value" for s in raw_branch)
                 cons_ok = any(isinstance(s, ast.Assign) and f"construct_object({kn}" in unparse(s.value) for s in cons_branch)
                 key_rule = raw_ok and cons_ok
-    chk.decide(key_rule, "C08.R5", cm, "non-str key tag => scalar text", "numeric / boolean-looking mapping keys (status codes, on/off) are converted to non-string keys", cm.loc())
+            elif kn and isinstance(t.ops[0], (ast.In, ast.NotIn)):
+                # allow-list form: `k.tag in TAGS` - the scalar text is kept only for the listed implicit tags
+                comp = t.comparators[0]
+                if isinstance(comp, ast.Name):
+                    vals = [v for _, v in assignments_to(cm.module.tree, comp.id) if v is not None]
+                    comp = vals[0] if len(vals) == 1 else comp
+                if isinstance(comp, ast.Call) and comp.args and last_attr(comp) in ("frozenset", "set", "tuple"):
+                    comp = comp.args[0]
+                if isinstance(comp, (ast.Set, ast.Tuple, ast.List)) and all(const_str(e) is not None for e in comp.elts):
+                    listed = {const_str(e).rsplit(":", 1)[-1] for e in comp.elts}  # type: ignore[union-attr]
+                    raw_branch = n.body if isinstance(t.ops[0], ast.In) else n.orelse
+                    raw_ok = any(isinstance(s, ast.Assign) and unparse(s.value) == f"{kn}.value" for s in raw_branch)
+                    missing = {"int", "bool", "float", "null"} - listed
+                    if raw_ok and missing:
+                        allow_missing = sorted(missing)
+                        key_rule = False
+                    elif raw_ok and "str" not in listed:
+                        key_rule = True
+    chk.decide(key_rule, "C08.R5", cm, "non-str key tag => scalar text", "numeric / boolean-looking mapping keys (status codes, on/off) are converted to non-string keys" + (f": the allow-list of implicit key tags lacks {allow_missing} - unquoted keys such as `1.5`, `1e3`, `null`, `~` become float / None in a YAML document and stay strings in the same document written as JSON" if allow_missing else ""), cm.loc())
     rets_l = [r.id for r in simple_return_expr(loader) if isinstance(r, ast.Name)]
     lv = rets_l[0] if rets_l else "cls"
     installs = any(isinstance(n, ast.Assign) and unparse(n.targets[0]) == f"{lv}.construct_mapping" and unparse(n.value) == "construct_mapping" for n in walk_body(loader.node))
